@@ -87,6 +87,9 @@ def r_chain(E):
                         src = comp.generators[0].iter
                         defs = {norm(n.targets[0]): n.value for n in ast.walk(fn) if isinstance(n, ast.Assign)}
                         d = defs.get(norm(src), src)
+                        if isinstance(src, ast.Name):
+                            from ..astutil import list_builder
+                            d = list_builder(fn, src.id) or d
                         if "direct_ancestors_with_id" not in norm(d):
                             shape_ok = False
         if not all_ok:
@@ -645,8 +648,10 @@ def r_accum(E):
                         cls = getattr(cls, "_parent", None)
                     q = f"{cls.name}.{fn.name}" if cls is not None else fn.name
                     if isinstance(st, ast.Assign):
-                        guarded_init = any(isinstance(g, ast.If) and inb and norm(g.test) in (f"{v} is None",)
-                                           for g, inb in _enclosing_ifs(st, L))
+                        # first-iteration initialisation: the assignment runs only where the accumulator is still None
+                        from ..astutil import path_conditions as _pc
+                        from ..paths import path_formula as _pf, implies as _imp, parse as _parse
+                        guarded_init = _imp(_pf(_pc(st, fn), fn), _parse(f"{v} is None"))
                         if not _mentions(st.value, v) and not guarded_init:
                             res.findings.append(Finding(
                                 "R-ACCUM", f"{q} overwrites {v} :: {norm(st)[:80]}",
@@ -1040,24 +1045,30 @@ def r_replace_sym(E):
     p = [a.arg for a in fn.args.args]
     me, new = p[0], p[1]
     checked = 0
-    for n in ast.walk(fn):
-        if isinstance(n, ast.If) and any(isinstance(x, ast.Assert) for x in n.body) and me in norm(n.test) + norm(n.body[0]):
-            asserts = [x for x in n.body if isinstance(x, ast.Assert)]
-            res.instances += 1
-            checked += 1
-            if _canon_bool(n.test) != _canon_bool(_swap_names(n.test, me, new)):
-                res.findings.append(Finding(
-                    "R-REPLACE-SYM", "type-compatibility guard",
-                    f"the type-compatibility assertion of the replace primitive is guarded by `{norm(n.test)[:90]}`, which "
-                    f"is not symmetric in ({me}, {new}): replacing an empty value by a non-empty one is refused while the "
-                    f"opposite is accepted, so reset_values / set_updated_values raise halfway for simulations that "
-                    f"change a value's emptiness", rel, n.lineno, fn.name))
-            for a in asserts:
-                res.instances += 1
-                if _canon_bool(a.test) != _canon_bool(_swap_names(a.test, me, new)):
-                    res.findings.append(Finding("R-REPLACE-SYM", "type-compatibility assertion",
-                                                f"`{norm(a.test)[:90]}` is not symmetric in ({me}, {new})", rel, a.lineno,
-                                                fn.name))
+    from ..astutil import path_conditions
+    from ..paths import path_formula, implies
+    for a in [x for x in ast.walk(fn) if isinstance(x, ast.Assert)]:
+        conds = path_conditions(a, fn)
+        if not conds or not any(isinstance(y, ast.Name) and y.id in (me, new) for t, _ in conds for y in ast.walk(t)):
+            continue
+        # the conditions under which the assertion is evaluated, and the same with the two values exchanged
+        res.instances += 1
+        checked += 1
+        F = path_formula(conds, fn)
+        Fs = path_formula([(_swap_names(t, me, new), pol) for t, pol in conds], fn)
+        if not (implies(F, Fs) and implies(Fs, F)):
+            cond = " and ".join(("" if pol else "not ") + "(" + norm(t)[:60] + ")" for t, pol in conds)
+            res.findings.append(Finding(
+                "R-REPLACE-SYM", "type-compatibility guard",
+                f"the type-compatibility assertion of the replace primitive is guarded by `{cond[:120]}`, which "
+                f"is not symmetric in ({me}, {new}): replacing an empty value by a non-empty one is refused while the "
+                f"opposite is accepted, so reset_values / set_updated_values raise halfway for simulations that "
+                f"change a value's emptiness", rel, a.lineno, fn.name))
+        res.instances += 1
+        if _canon_bool(a.test) != _canon_bool(_swap_names(a.test, me, new)):
+            res.findings.append(Finding("R-REPLACE-SYM", "type-compatibility assertion",
+                                        f"`{norm(a.test)[:90]}` is not symmetric in ({me}, {new})", rel, a.lineno,
+                                        fn.name))
     if not checked:
         res.undecided.append("replace primitive: type-compatibility guard not found")
     res.floor = 2
@@ -1160,9 +1171,22 @@ def r_json_load(E):
             if isinstance(par, ast.For):
                 break
             if isinstance(par, ast.If) and not any(x is g or any(y is x for y in ast.walk(g)) for g in [par.test]):
-                t = norm(par.test)
-                if "type(" not in t and "isinstance(" not in t:
-                    extra.append(t)
+                # conjuncts of the test that are neither a kind test on the value (type(v) == …, isinstance(v, …)) nor
+                # the exclusion of a bookkeeping name (key != "id", key not in (…)) restrict the conversion
+                conj = par.test.values if isinstance(par.test, ast.BoolOp) and isinstance(par.test.op, ast.And) else [par.test]
+                for cj in conj:
+                    t = norm(cj)
+                    kind_test = "type(" in t or "isinstance(" in t
+                    name_excl = isinstance(cj, ast.Compare) and len(cj.ops) == 1 and isinstance(cj.left, ast.Name) and (
+                        (isinstance(cj.ops[0], (ast.Eq, ast.NotEq)) and isinstance(cj.comparators[0], ast.Constant)
+                         and isinstance(cj.comparators[0].value, str)) or
+                        (isinstance(cj.ops[0], (ast.In, ast.NotIn)) and isinstance(cj.comparators[0], (ast.List, ast.Tuple, ast.Set))
+                         and all(isinstance(e, ast.Constant) for e in cj.comparators[0].elts)))
+                    # `value in <table of loaded objects>`: a string is a link exactly when it is a known id
+                    known_id = isinstance(cj, ast.Compare) and len(cj.ops) == 1 and isinstance(cj.ops[0], ast.In) \
+                        and isinstance(cj.left, ast.Name) and not isinstance(cj.comparators[0], (ast.List, ast.Tuple, ast.Set))
+                    if not kind_test and not name_excl and not known_id:
+                        extra.append(t)
             x = par
         if extra:
             res.findings.append(Finding(
@@ -1287,8 +1311,18 @@ def r_noop(E):
                                "same elements, same order, same multiplicity); any coarser test drops real edits "
                                "(permutations, duplicate-only changes)")
     rel, fn = pm.find_function(MU, "ModelingUpdate.parse_changes_list")
+    # the skip decision: inside the loop over the changes, the `if` that records the loop's index (or the change
+    # itself) in a list of entries to drop — the list that a later `del` loop consumes
+    dropped = set()
+    for d in [n for n in ast.walk(fn) if isinstance(n, ast.Delete)]:
+        lp = d
+        while lp is not None and not isinstance(lp, ast.For):
+            lp = getattr(lp, "_parent", None)
+        if lp is not None:
+            dropped |= {x.id for x in ast.walk(lp.iter) if isinstance(x, ast.Name)}
     skips = [n for n in ast.walk(fn) if isinstance(n, ast.If) and any(
-        isinstance(c.func, ast.Attribute) and c.func.attr == "append" and "skip" in norm(c.func.value) for c in _calls(n))]
+        isinstance(c.func, ast.Attribute) and c.func.attr == "append" and isinstance(c.func.value, ast.Name)
+        and c.func.value.id in dropped for s_ in n.body for c in _calls(s_))]
     res.instances += 1
     if len(skips) != 1:
         res.undecided.append("parse_changes_list: skip decision not found")
@@ -1299,8 +1333,20 @@ def r_noop(E):
     exprs = [t]
     if isinstance(t, ast.Name):
         exprs = [n.value for n in ast.walk(fn) if isinstance(n, ast.Assign) and norm(n.targets[0]) == t.id]
+    # the two names bound to a change by the loop: `old_value, new_value = self.changes_list[index]`
+    pair = None
+    for a in ast.walk(fn):
+        if isinstance(a, (ast.Assign, ast.For)):
+            t = a.targets[0] if isinstance(a, ast.Assign) else a.target
+            src = a.value if isinstance(a, ast.Assign) else a.iter
+            if isinstance(t, ast.Tuple) and len(t.elts) == 2 and all(isinstance(x, ast.Name) for x in t.elts) \
+                    and "changes_list" in norm(src):
+                pair = {t.elts[0].id, t.elts[1].id}
+    if pair is None:
+        res.undecided.append("parse_changes_list: the (old, new) pair of a change is not bound by a tuple assignment")
+        return res
     ok_shape = lambda e: isinstance(e, ast.Compare) and len(e.ops) == 1 and isinstance(e.ops[0], ast.Eq) and \
-        {norm(e.left), norm(e.comparators[0])} == {"old_value", "new_value"}
+        {norm(e.left), norm(e.comparators[0])} == pair
     bad = [e for e in exprs if not ok_shape(e)]
     if bad:
         coarse = any(isinstance(x, ast.Compare) and isinstance(x.ops[0], (ast.In, ast.NotIn)) or
